@@ -134,6 +134,13 @@ fn resolve_case_at(out: &mut Out, root: &str, entry_dir: &str, files: &[&str], i
 /// Visibility with the module's real export computation: a module `m` with the given declarations, and
 /// one importing entry per (spelling, name).
 fn vis_cases(out: &mut Out, root: &str, decls: &[(&str, String, bool, Vec<String>)], extra_names: &[&str]) {
+    for modpath in ["m", "pkg.inner", "pkg.sub.deep"] {
+        vis_cases_at(out, root, modpath, decls, extra_names);
+    }
+}
+
+/// `modpath`: dotted path of the imported module below the entry's directory (`pkg.inner` = pkg/inner.incn).
+fn vis_cases_at(out: &mut Out, root: &str, modpath: &str, decls: &[(&str, String, bool, Vec<String>)], extra_names: &[&str]) {
     let mut src = String::new();
     for (kind, name, is_pub, variants) in decls {
         let p = if *is_pub { "pub " } else { "" };
@@ -160,10 +167,11 @@ fn vis_cases(out: &mut Out, root: &str, decls: &[(&str, String, bool, Vec<String
     names.extend(extra_names.iter().map(|s| s.to_string()));
     for name in names {
         for form in ["from", "module"] {
-            let line = if form == "from" { format!("from m import {name}") } else { format!("import m::{name}") };
+            let line = if form == "from" { format!("from {modpath} import {name}") } else { format!("import {}::{name}", modpath.replace('.', "::")) };
             let _ = std::fs::remove_dir_all(root);
-            std::fs::create_dir_all(root).expect("mkdir");
-            std::fs::write(format!("{root}/m.incn"), &src).expect("w");
+            let file = format!("{root}/{}.incn", modpath.replace('.', "/"));
+            std::fs::create_dir_all(std::path::Path::new(&file).parent().expect("parent")).expect("mkdir");
+            std::fs::write(&file, &src).expect("w");
             std::fs::write(format!("{root}/main.incn"), format!("{line}\n\ndef main() -> None:\n    pass\n")).expect("w");
             let entry = format!("{root}/main.incn");
             let res = catch(|| -> Result<String, String> {
@@ -181,7 +189,7 @@ fn vis_cases(out: &mut Out, root: &str, decls: &[(&str, String, bool, Vec<String
                 Ok(Err(e)) => e,
                 Err(m) => format!("panic {m}"),
             };
-            out.case(&format!("c14 vis {enc} {form} {name}"), &real);
+            out.case(&format!("c14 vis {enc} {form} {name} {modpath}"), &real);
         }
     }
 }
